@@ -728,4 +728,186 @@ theorem run_reachable (cfg : Cfg) (tr : List Nat) : Reachable cfg (run cfg tr) :
 
 end Reg
 
+/-! ## (e) re-entrant derivation of mutually recursive descriptors behind a lock, with a lock-free cache
+
+internal/impl/legacy_message.go: `legacyLoadMessageDesc` first looks into the lock-free sync.Map
+`legacyMessageDescCache`; on a miss, tag-derived ("aberrant") types go through
+`aberrantLoadMessageDesc` (takes `aberrantMessageDescLock`) into the RE-ENTRANT
+`aberrantLoadMessageDescReentrant`, which enters the new descriptor into the locked map
+`aberrantMessageDescCache` before filling it in (so that reference cycles resolve) and derives the
+types of message fields by calling itself.  Two mutually recursive types x ↔ y: deriving x creates
+x, then (field 1) creates and completes y — whose field points back to the still empty x — and only
+then fills in the remaining fields of x.  A descriptor that becomes reachable WITHOUT the lock
+before its cycle partner is complete exposes the partner half-built. -/
+namespace Nest
+
+/-- when a derived descriptor is stored into the lock-free cache: never (the code), by the
+outermost caller after the whole derivation (also safe), or — the broken variant — by the
+re-entrant function itself as soon as that (nested) descriptor is finished. -/
+inductive Publish | never | outermost | nestedEarly
+  deriving DecidableEq, Repr
+
+structure Cfg where
+  fields  : Bool → Nat     -- number of fields of the two types (`false`, `true`), each written in its own step
+  publish : Publish
+  prog    : Nat → Bool     -- the type thread i makes first use of
+
+inductive PC where
+  | fast                      -- legacyMessageDescCache.Load(x)
+  | lock
+  | check                     -- under the lock: already in aberrantMessageDescCache?
+  | buildInner (k : Nat)      -- x created and registered; the partner y created, k of its fields written
+  | pubInner                  -- y finished (the re-entrant call for y returns)
+  | buildOuter (k : Nat)      -- back in x: k of its fields written
+  | finish                    -- x finished; the outermost call returns
+  | unlock
+  | walk                      -- use: read the descriptor of x and, through its field, the partner's
+  | done (obs : Nat × Nat)    -- observed numbers of fields of (x, its partner y)
+  deriving DecidableEq, Repr
+
+structure State where
+  bx    : Bool             -- the type x whose first use started the (one) derivation; its partner is y
+  kOut  : Nat              -- number of fields of x, of y (fixed when the derivation starts)
+  kIn   : Nat
+  dOut  : Nat              -- fields written so far into the descriptor of x, of y
+  dIn   : Nat
+  lfOut : Bool             -- x, y present in the lock-free cache
+  lfIn  : Bool
+  made  : Bool             -- both descriptors are in the locked map and their derivation has returned
+  mutex : Option Nat
+  pc    : Nat → PC
+
+def init : State :=
+  { bx := false, kOut := 0, kIn := 0, dOut := 0, dIn := 0, lfOut := false, lfIn := false, made := false,
+    mutex := none, pc := fun _ => .fast }
+
+/-- `legacyMessageDescCache.Load(t)` for a thread that uses type t -/
+def lfHit (s : State) (t : Bool) : Bool := if t = s.bx then s.lfOut else s.lfIn
+
+inductive Step (cfg : Cfg) : State → State → Prop where
+  | fast_hit (s i) : s.pc i = .fast → lfHit s (cfg.prog i) = true →
+      Step cfg s { s with pc := upd s.pc i .walk }
+  | fast_miss (s i) : s.pc i = .fast → lfHit s (cfg.prog i) = false →
+      Step cfg s { s with pc := upd s.pc i .lock }
+  | lock (s i) : s.pc i = .lock → s.mutex = none →
+      Step cfg s { s with mutex := some i, pc := upd s.pc i .check }
+  | check_hit (s i) : s.pc i = .check → s.made = true →
+      Step cfg s { s with pc := upd s.pc i .unlock }
+  | check_miss (s i) : s.pc i = .check → s.made = false →
+      Step cfg s { s with bx := cfg.prog i, kOut := cfg.fields (cfg.prog i), kIn := cfg.fields (!cfg.prog i),
+                          pc := upd s.pc i (.buildInner 0) }
+  | inner_write (s i k) : s.pc i = .buildInner k → k < s.kIn →
+      Step cfg s { s with dIn := k + 1, pc := upd s.pc i (.buildInner (k + 1)) }
+  | inner_end (s i k) : s.pc i = .buildInner k → ¬ k < s.kIn →
+      Step cfg s { s with pc := upd s.pc i .pubInner }
+  | inner_pub (s i) : s.pc i = .pubInner →
+      Step cfg s { s with lfIn := (if cfg.publish = .nestedEarly then true else s.lfIn),
+                          pc := upd s.pc i (.buildOuter 0) }
+  | outer_write (s i k) : s.pc i = .buildOuter k → k < s.kOut →
+      Step cfg s { s with dOut := k + 1, pc := upd s.pc i (.buildOuter (k + 1)) }
+  | outer_end (s i k) : s.pc i = .buildOuter k → ¬ k < s.kOut →
+      Step cfg s { s with pc := upd s.pc i .finish }
+  | finish (s i) : s.pc i = .finish →
+      Step cfg s { s with made := true,
+                          lfOut := (if cfg.publish = .never then s.lfOut else true),
+                          pc := upd s.pc i .unlock }
+  | unlock (s i) : s.pc i = .unlock →
+      Step cfg s { s with mutex := none, pc := upd s.pc i .walk }
+  | walk (s i) : s.pc i = .walk →
+      Step cfg s { s with pc := upd s.pc i (.done (s.dOut, s.dIn)) }
+
+inductive Reachable (cfg : Cfg) : State → Prop where
+  | init : Reachable cfg init
+  | step {s t} : Reachable cfg s → Step cfg s t → Reachable cfg t
+
+inductive Steps (cfg : Cfg) : State → State → Prop where
+  | refl (s) : Steps cfg s s
+  | tail {s t u} : Steps cfg s t → Step cfg t u → Steps cfg s u
+
+/-- scheduler choice: thread i takes its (unique) next step -/
+def next (cfg : Cfg) (s : State) (i : Nat) : Option State :=
+  match s.pc i with
+  | .fast => some { s with pc := upd s.pc i (if lfHit s (cfg.prog i) then .walk else .lock) }
+  | .lock => if s.mutex = none then some { s with mutex := some i, pc := upd s.pc i .check } else none
+  | .check =>
+    if s.made then some { s with pc := upd s.pc i .unlock }
+    else some { s with bx := cfg.prog i, kOut := cfg.fields (cfg.prog i), kIn := cfg.fields (!cfg.prog i),
+                       pc := upd s.pc i (.buildInner 0) }
+  | .buildInner k =>
+    if k < s.kIn then some { s with dIn := k + 1, pc := upd s.pc i (.buildInner (k + 1)) }
+    else some { s with pc := upd s.pc i .pubInner }
+  | .pubInner =>
+    some { s with lfIn := (if cfg.publish = .nestedEarly then true else s.lfIn), pc := upd s.pc i (.buildOuter 0) }
+  | .buildOuter k =>
+    if k < s.kOut then some { s with dOut := k + 1, pc := upd s.pc i (.buildOuter (k + 1)) }
+    else some { s with pc := upd s.pc i .finish }
+  | .finish =>
+    some { s with made := true, lfOut := (if cfg.publish = .never then s.lfOut else true), pc := upd s.pc i .unlock }
+  | .unlock => some { s with mutex := none, pc := upd s.pc i .walk }
+  | .walk => some { s with pc := upd s.pc i (.done (s.dOut, s.dIn)) }
+  | .done _ => none
+
+def exec (cfg : Cfg) (s : State) : List Nat → Option State
+  | [] => some s
+  | i :: is => (next cfg s i).bind fun t => exec cfg t is
+
+theorem Steps.head {cfg : Cfg} {s t u : State} (h1 : Step cfg s t) (h2 : Steps cfg t u) : Steps cfg s u := by
+  induction h2 with
+  | refl => exact Steps.tail (Steps.refl _) h1
+  | tail _ st ih => exact Steps.tail ih st
+
+theorem next_sound (cfg : Cfg) {s t : State} {i : Nat} (h : next cfg s i = some t) : Step cfg s t := by
+  unfold next at h
+  split at h
+  · rename_i hpc; cases h
+    cases hl : lfHit s (cfg.prog i) with
+    | true => simpa [hl] using Step.fast_hit s i hpc hl
+    | false => simpa [hl] using Step.fast_miss s i hpc hl
+  · rename_i hpc
+    split at h
+    · rename_i hm; cases h; exact Step.lock s i hpc hm
+    · cases h
+  · rename_i hpc
+    split at h
+    · rename_i hm; cases h; exact Step.check_hit s i hpc hm
+    · rename_i hm; cases h; exact Step.check_miss s i hpc (by simpa using hm)
+  · rename_i k hpc
+    split at h
+    · rename_i hk; cases h; exact Step.inner_write s i k hpc hk
+    · rename_i hk; cases h; exact Step.inner_end s i k hpc hk
+  · rename_i hpc; cases h; exact Step.inner_pub s i hpc
+  · rename_i k hpc
+    split at h
+    · rename_i hk; cases h; exact Step.outer_write s i k hpc hk
+    · rename_i hk; cases h; exact Step.outer_end s i k hpc hk
+  · rename_i hpc; cases h; exact Step.finish s i hpc
+  · rename_i hpc; cases h; exact Step.unlock s i hpc
+  · rename_i hpc; cases h; exact Step.walk s i hpc
+  · cases h
+
+theorem exec_steps (cfg : Cfg) : ∀ (tr : List Nat) {s t : State}, exec cfg s tr = some t → Steps cfg s t
+  | [], s, t, h => by simp only [exec] at h; cases h; exact Steps.refl s
+  | e :: es, s, t, h => by
+    simp only [exec] at h
+    cases hn : next cfg s e with
+    | none => simp [hn] at h
+    | some u =>
+      simp only [hn, Option.bind_some] at h
+      exact Steps.head (next_sound cfg hn) (exec_steps cfg es h)
+
+theorem steps_reachable {cfg : Cfg} {s t : State} (r : Reachable cfg s) (h : Steps cfg s t) : Reachable cfg t := by
+  induction h with
+  | refl => exact r
+  | tail _ st ih => exact Reachable.step ih st
+
+def run (cfg : Cfg) (tr : List Nat) : State := (exec cfg init tr).getD init
+
+theorem run_reachable (cfg : Cfg) (tr : List Nat) : Reachable cfg (run cfg tr) := by
+  unfold run
+  cases h : exec cfg init tr with
+  | none => exact Reachable.init
+  | some t => exact steps_reachable Reachable.init (exec_steps cfg tr h)
+
+end Nest
+
 end Conc
